@@ -404,6 +404,79 @@ def run(tier, seed, replay=None):
     for d, c in at_origin.items():
         if d not in all_sent and d not in (b"warm", b"") and d not in all_extra:
             rep.fail("C10: the origin received a datagram no client sent: %r (%d bytes, %d times)" % (d[:40], len(d), c), {"kind": "failing-input", "scenario": "stray datagram at the origin"})
+    # ---- a SOCKS5 UDP client that reaches the proxy over IPv6 and sends to an IPv4 and to an IPv6 destination: each reply must
+    #      be labelled with the address that replied (the proxy's dual-stack socket sees the IPv4 one as ::ffff:a.b.c.d) ------
+    import c06
+    import struct
+    import threading
+    g6 = c06.global_ipv6()
+    v6_runs = []
+    if g6:
+        def echo_origin(fam, addr):
+            s_ = socket.socket(fam, socket.SOCK_DGRAM)
+            s_.bind((addr, 0))
+            def run_():
+                while True:
+                    try:
+                        d_, a_ = s_.recvfrom(70000)
+                        s_.sendto(d_, a_)
+                    except OSError:
+                        return
+            threading.Thread(target=run_, daemon=True).start()
+            return s_
+        try:
+            o4, o6 = echo_origin(socket.AF_INET, LOOP), echo_origin(socket.AF_INET6, g6)
+        except OSError:
+            o4 = o6 = None
+        if o4 is not None:
+            lp6 = e2e.free_port()
+            px = e2e.Proxy(driver, [{"name": "socks6", "type": "socks", "bind": "[%s]:%d" % (g6, lp6)}], [{"name": "direct"}], [{"target": "direct"}], metrics=False, name="c10-v6")
+            try:
+                px.start()
+                c = socket.socket(socket.AF_INET6)
+                c.settimeout(3)
+                c.bind((g6, 0))
+                c.connect((g6, lp6))
+                c.sendall(b"\x05\x01\x00")
+                e2e.recv_exact(c, 2)
+                c.sendall(b"\x05\x03\x00\x01\x00\x00\x00\x00\x00\x00")
+                rp_ = c.recv(100)
+                if len(rp_) >= 22 and rp_[1] == 0 and rp_[3] == 4:
+                    relay = (socket.inet_ntop(socket.AF_INET6, rp_[4:20]), struct.unpack(">H", rp_[20:22])[0])
+                    u = socket.socket(socket.AF_INET6, socket.SOCK_DGRAM)
+                    u.bind((g6, 0))
+                    u.settimeout(2)
+                    dests = (("IPv4", b"\x00\x00\x00\x01" + socket.inet_aton(LOOP) + struct.pack(">H", o4.getsockname()[1])),
+                             ("IPv6", b"\x00\x00\x00\x04" + socket.inet_pton(socket.AF_INET6, g6) + struct.pack(">H", o6.getsockname()[1])))
+                    for fam_name, hdr in dests:
+                        for i in range(3):
+                            pay = b"v6client-%s-%d" % (fam_name.encode(), i)
+                            n_eval += 1
+                            dist["socks5-from-ipv6|" + fam_name] += 1
+                            try:
+                                u.sendto(hdr + pay, relay)
+                                d_, a_ = u.recvfrom(70000)
+                            except (socket.timeout, OSError):
+                                d_ = b""
+                            ok_ = d_[3:] == hdr[3:] + pay and d_[2:3] == b"\x00"
+                            v6_runs.append(dict(dest=fam_name, ok=ok_))
+                            if not ok_:
+                                rep.fail("C10: SOCKS5 UDP client connected from %s, datagram to an %s destination: the reply is %s, expected the payload labelled with the destination's own address (header %s)" % (
+                                    g6, fam_name, d_.hex()[:80] or "missing", hdr.hex()), {"kind": "failing-input", "scenario": "socks5 udp from ipv6", "dest": fam_name, "reply": d_.hex()[:200]})
+                                break
+                    u.close()
+                else:
+                    rep.fail("C10: SOCKS5 UDP ASSOCIATE from %s was answered %s" % (g6, rp_.hex()), {"kind": "failing-input", "scenario": "socks5 udp from ipv6"})
+                e2e.close_quiet(c)
+            except OSError as e:
+                rep.fail("C10: SOCKS5 UDP from IPv6: %s" % e, {"kind": "failing-input", "scenario": "socks5 udp from ipv6"})
+            finally:
+                px.stop()
+                o4.close()
+                o6.close()
+                import shutil
+                shutil.rmtree(px.dir, ignore_errors=True)
+    rep.coverage["socks5_udp_from_ipv6"] = {"address": g6, "datagrams": len(v6_runs)}
     # ---- the datagram hop of C10_quic_datagram_hop_exact against the real sender half, fragmenter and reassembly table ----
     # writes of 1-4 sessions, fragment ids as the source assigns them (one shared counter, incl. wrap-around at 65535) or - to
     # keep model and code tied where they mix - one counter per writer; complete schedules (every fragment once, any order),
